@@ -166,12 +166,12 @@ pub fn vector_mut_copy(vm: &mut Vm) -> Result<VCell, Error> {
     let to_vector = pop_vector(vm)?;
     let to_vector = to_vector.as_ref();
 
-    if at > to_vector.len() - 1 {
+    if at > to_vector.len() {
         return Err(InvalidVectorIndex(at, to_vector.len()));
     }
 
     match (start, end) {
-        (Some(start), _) if start > from_vector.len() - 1 => {
+        (Some(start), _) if start > from_vector.len() => {
             return Err(InvalidVectorIndex(start, from_vector.len()));
         }
         (_, Some(end)) if end > from_vector.len() => {
